@@ -59,10 +59,6 @@ Inductive gop :=
 
 Definition gam_infos (g : gam) : value := match g_terms g with Some ts => infos ts | None => VNone end.
 
-Definition gam_set_params (name : string) (v : value) (force : bool) (g : gam) : status * gam :=
-  (* plural names carry no underscore; hasattr(gam, name) holds through the instance dictionary or through __getattr__ *)
-  if mem_str name (map fst (g_pending g)) || force || gam_has_terms g then gam_set name v g else (Ok, g).
-
 Fixpoint run_gops (ops : list gop) (g : gam) : list value :=
   match ops with
   | [] => []
